@@ -35,7 +35,7 @@ TRUSTED = [
 ]
 ASSUMPTIONS = ['F1d: code points below U+0010 in path segments or query text are percent-encoded with one hex digit (F1 of C13)', 'F26d: query pairs with ASCII control characters U+0010-U+001F, U+007F are refused by the parser (F26 of C13)', 'F23: chunked framing on HTTP/1.0 (recorded, C05)', 'HTTP/1.1 requests carry a Host (explicit field or absolute target): without it the server answers 400 by design']
 RULE = ('messages built through the public API from valid components: method tokens (all of METHOD_RE\'s alphabet, 1-20 octets), 0-4 path segments and 0-3 query pairs over arbitrary Unicode (ASCII, Latin-1, BMP, astral, "/", "%", "+", "&", "=", spaces), statuses 100-599 with default or own reason phrase, versions 1.0/1.1, '
-	'1-4 header fields with Latin-1 values (no CR/LF, no outer white space), bodies from bytes/text/list/generator/BytesIO/file incl. empty and multi-block, Content-Length or chunked (asked for through ComposedMessage.chunked, the Transfer-Encoding field or the Body flag), responses also with gzip/deflate; composed, then parsed by the opposite state machine in one call and in fragments; '
+	'1-4 header fields with Latin-1 values (no CR/LF, no outer white space), bodies from bytes/text/list/generator/BytesIO/file incl. empty and multi-block, Content-Length or chunked (asked for through ComposedMessage.chunked, the Transfer-Encoding field or the Body flag), responses also with gzip/deflate; composed, then parsed by the opposite state machine in one call and in fragments, followed on the same state machine by a second, plain message; '
 	'non-trivial = one message delivered and equal; distinct by (kind, framing, coding, source, sizes)')
 
 METHOD_CHARS = 'ABCDEFGHIJKLMNOPQRSTUVWXYZabcdefghijklmnopqrstuvwxyz0123456789-_.$'
@@ -290,7 +290,48 @@ def oracle(case):
 			bad.append('body: %d octets, %d sent' % (len(bytes(got.body)), len(want_body)))
 		if bad:
 			return {'what': '; '.join(bad)[:400], 'wire': wire[:300].hex(), 'case': describe(case), 'finding': 'F1d' if lowc and all(b.startswith(('path', 'query')) for b in bad) else None}
+		# the connection goes on: a second, plain message composed by the library and sent to the SAME state machine is one message again
+		follow, fbody = followup(kind)
+		try:
+			if kind == 'request':
+				out2 = [x[0] for x in sm.parse(follow)]
+			else:
+				sm.request = req
+				out2 = list(sm.parse(follow))
+		except Exception as e:
+			return {'what': 'the message after this one on the same connection: the state machine raised %s: %s' % (exc_name(e), str(e)[:150]), 'wire': wire[:300].hex(), 'case': describe(case), 'finding': None}
+		if len(out2) != 1 or bytes(out2[0].body) != fbody:
+			return {'what': 'the message after this one on the same connection: %d delivered%s' % (len(out2), (', body %r' % bytes(out2[0].body)[:40]) if out2 else ''), 'wire': wire[:300].hex(), 'case': describe(case), 'finding': None}
 	return None
+
+
+_follow = {}
+
+
+def followup(kind):
+	"""a plain Content-Length message composed by the library (once per run) and its body"""
+	if kind not in _follow:
+		from httoop import Request, Response
+		from httoop.semantic.request import ComposedRequest
+		from httoop.semantic.response import ComposedResponse
+		body = b'1\r\nsecond message\r\n0\r\n\r\n'      # looks like chunks to a reader that still believes in chunked framing
+		if kind == 'request':
+			m = Request()
+			m.method = 'POST'
+			m.uri = '/second'
+			m.headers['Host'] = 'example.org'
+			m.body = body
+			c = ComposedRequest(m)
+		else:
+			r = Request()
+			r.method = 'GET'
+			m = Response()
+			m.status = 200
+			m.body = body
+			c = ComposedResponse(m, r)
+		c.prepare()
+		_follow[kind] = (b''.join(c), body)
+	return _follow[kind]
 
 
 def nontrivial(case, outs):
